@@ -225,6 +225,10 @@ CORPUS = [
      'src': [{'name': 'V1', 'prefix': 'V1 0 1', 'desc': {'form': 'ac', 'A': '4', 'k': 0, 'w': '2'}},
              {'name': 'I1', 'prefix': 'I1 2 3', 'desc': {'form': 'ac', 'A': '1', 'k': 0, 'w': '2'}}],
      'transfer': ['0', '1', '2', '0'], 'transfer_src': 'V1', 'transfer_elt': 'C1'},
+    # same mechanism: here the ladder search never terminates (and allocates without bound)
+    {'netlist': ['R1 0 1 2', 'R2 0 2 3', 'R3 3 0 8', 'V1 0 m79 ac -1 {pi/2} 2', 'R4 m79 2 1', 'R5 1 0 1', 'C1 1 3 {7/3}', 'L1 1 0 8', 'R6 1 0 7', 'R7 3 0 2'],
+     'src': [{'name': 'V1', 'prefix': 'V1 0 m79', 'desc': {'form': 'ac', 'A': '-1', 'k': 1, 'w': '2'}}],
+     'transfer': ['0', 'm79', '1', '0'], 'transfer_src': 'V1', 'transfer_elt': 'R5', 'transfer_cpu_s': 4},
 ]
 for _c in CORPUS:
     _c.setdefault('tags', ['corpus'])
@@ -674,7 +678,7 @@ def build_checks(ci, case, wr, tr, res):
                 checks.append((tag + '/transfer_phasor' + lad, None, 'qci_eqb (cimul %s (src_P %s %s)) %s' % (
                     gq(ad['transfer']), wl, desc_lit(srcdesc[case['transfer_src']]), gq(ad['V'][case['transfer_elt']]))))
         elif 'transfer' in case:
-            res.count('transfer_unavailable')
+            res.count('transfer_hang' if isinstance(ad.get('transfer'), dict) and ad['transfer'].get('hang') else 'transfer_unavailable')
         # --- time domain
         for nm, tp in wr.get('time', {}).items():
             if 'error' in tp or tp.get('rest') != '0' or not isinstance(ad['V'].get(nm), str):
@@ -820,7 +824,7 @@ def run(tier='quick', replay=None):
             r0 = core.coqc_many(w.dir, ['StampsGen.v', 'ImmittanceGen.v'], timeout=300)
             allr.update(r0)
             if all(r[0] for r in r0.values()):
-                r1 = core.coqc_many(w.dir, ['C01model.v', 'C14.v', 'C14reg.v', 'C14imm.v', 'C01.v'], timeout=1500)
+                r1 = core.coqc_many(w.dir, ['C01model.v', 'C14.v', 'C14reg.v', 'C14imm.v', 'C01.v', 'C14axioms.v'], timeout=1500)
                 allr.update(r1)
                 if r1['C01model.v'][0] and r1['C14.v'][0] and r1['C14imm.v'][0]:
                     r2 = core.coqc_many(w.dir, ['C14model.v'] + (['C01net.v'] if r1['C01.v'][0] else []), timeout=900)
@@ -832,6 +836,13 @@ def run(tier='quick', replay=None):
         if tr is not None and ti is not None:
             for f in PROPS:
                 texts[f] = open(os.path.join(core.VERIF, 'coq', 'props', f)).read()
+            # axioms of the theory theorems (compiled by the setup build), as printed by Coq in this run
+            texts['C14axioms.v'] = ('Require Import LT.PhasorHom LT.PhasorTime LT.PhasorReal.\n' + '\n'.join(
+                'Print Assumptions %s.' % t for t in ('node_res_hom', 'br_res_hom', 'solution_transport', 'transported_solution_unique',
+                                                      'superposition', 'sol_scale', 'superposition_sum', 'sol_unique',
+                                                      'phasor_time_roundtrip', 'roundtrip_unique', 'deriv_is_jw', 'steady_R', 'steady_L', 'steady_C',
+                                                      'phasor_time_roundtrip_cos_R', 'phasor_time_roundtrip_sin_R', 'dtime_is_derivative',
+                                                      'steady_state_C_R', 'steady_state_L_R')) + '\n')
             for f, t in texts.items():
                 w.write(f, t)
             bad = core.gate_text('generated+props', '\n'.join(texts.values()))
@@ -849,8 +860,6 @@ def run(tier='quick', replay=None):
             names = core.obligations_in(open(os.path.join(core.COQ_THEORY, f)).read())
             res.obligations += len(names)
             res.discharged += len(names)
-        res.axioms.update(['ClassicalDedekindReals.sig_forall_dec', 'ClassicalDedekindReals.sig_not_dec',
-                           'FunctionalExtensionality.functional_extensionality_dep', 'Classical_Prop.classic'])
         res.notes.append('the four real-number axioms are used only by theory/PhasorReal.v; all other C14 theorems are closed under the global context')
 
         # ---- correspondence + oracle ------------------------------------------------------
@@ -873,7 +882,7 @@ def run(tier='quick', replay=None):
             log('props done')
             allr = coqstate['allr']
             model_ok = coqstate['model_ok']
-            for f in PROPS:
+            for f in PROPS + ['C14axioms.v']:
                 if f not in allr:
                     res.failed_obl.append(('prerequisite', f, 'not checked: a prerequisite file failed'))
                     res.obligations += 1
@@ -906,6 +915,12 @@ def run(tier='quick', replay=None):
                     continue
                 res.count('oracle_evaluated')
                 oV, oI = o
+                if isinstance(ad.get('transfer'), dict) and ad['transfer'].get('hang'):
+                    # non-termination (measured in CPU seconds of the worker) is a failure of the real code on this input
+                    res.counterexamples.append({'case': case, 'omega': wkey,
+                                                'ladder': any('laddernetworkmaker' in x for x in ad['transfer'].get('where', [])),
+                                                'what': 'transfer(%s) does not terminate' % ','.join(case['transfer']),
+                                                'reported': ad['transfer']['error'], 'expected': 'a transfer function'})
                 # transfer function through the oracle: only the input source active, at unit value
                 if isinstance(ad.get('transfer'), str) and case.get('transfer_src'):
                     uc = dict(case)
@@ -943,7 +958,7 @@ def run(tier='quick', replay=None):
         for pi_, (pc, pr) in enumerate(zip(pcases, pres)):
             if 'error' in pr:
                 res.count('phasor_error:' + pr['error'].split(':')[0])
-                if not pc.get('oracle_only'):
+                if not pc.get('oracle_only') and not re.match(r'worker crashed|timeout|MemoryError', pr['error']):
                     res.counterexamples.append({'case': pc, 'what': 'phasor() raised on a sinusoid: ' + pr['error'][:120]})
                 continue
             res.add_case('phasor:' + pc['expr'], True)
@@ -1010,6 +1025,8 @@ def run(tier='quick', replay=None):
         def fingerprint(case, what='', ladder=False):
             if case.get('mode') == 'phasor':
                 return 'phasor-roundtrip'
+            if case.get('mode') == 'ode':
+                return 'ode-substitution:' + str(case.get('ode'))
             if what.startswith('transfer') and ladder:
                 return 'NetlistOpsMixin.transfer:ladder-shortcut'
             if what.startswith('transfer'):
@@ -1019,7 +1036,8 @@ def run(tier='quick', replay=None):
             return None
         for ce in res.counterexamples:
             fp = fingerprint(ce['case'], ce.get('what', ''), ce.get('ladder', False))
-            key = fp or ('oracle:' + re.sub(r'[0-9/]+', '#', ce['what'])[:50])
+            kind_ = 'transfer' if ce.get('what', '').startswith('transfer') else (re.findall(r'\.([VI])\[', ce.get('what', '')) or ['other'])[0]
+            key = fp or ('oracle:' + kind_)
             if key in seen:
                 continue
             seen.add(key)
@@ -1037,6 +1055,8 @@ def run(tier='quick', replay=None):
                                'case': d['case'], 'check': d['check'], 'found_input': bool(fp),
                                'correspondence': 'Gen.C14model'})
         for name, f, msg in res.failed_obl:
+            if name == 'prerequisite':
+                name = 'prerequisite:' + f
             violations.append({'key': 'obligation:' + name, 'what': 'Coq obligation %s in %s no longer checks' % (name, f),
                                'theorem': name, 'file': f, 'message': msg, 'found_input': False,
                                'note': 'a failing input, if one was found by the oracle, is reported as a separate violation' if have_input else ''})
